@@ -84,7 +84,7 @@ type Cluster struct {
 	// SnapSent lists (from,to) of MsgSnap handed to the network in this action.
 	SnapSent []linkKey
 	// readyDigests is the per-Ready log used by the determinism oracle.
-	readyLog []uint64
+	readyLog  []uint64
 	initState *appState
 	vg        *VGroup
 	raftLog   []string
@@ -384,11 +384,11 @@ func (c *Cluster) Violated() *Violation { return c.viol }
 // Digest is the running digest of everything observable so far.
 func (c *Cluster) Digest() string { return fmt.Sprintf("%016x", c.digest) }
 
-func (c *Cluster) Stats() *Stats    { return c.stats }
-func (c *Cluster) Trace() []Action  { return c.trace }
-func (c *Cluster) Step() int        { return c.step }
-func (c *Cluster) Checker() *Checker { return c.chk }
-func (c *Cluster) IDs() []uint64    { return c.ids }
+func (c *Cluster) Stats() *Stats        { return c.stats }
+func (c *Cluster) Trace() []Action      { return c.trace }
+func (c *Cluster) Step() int            { return c.step }
+func (c *Cluster) Checker() *Checker    { return c.chk }
+func (c *Cluster) IDs() []uint64        { return c.ids }
 func (c *Cluster) Node(id uint64) *Node { return c.nodes[id] }
 
 // Do executes one action. It returns whether the action was applicable.
